@@ -831,12 +831,42 @@ func (s *Stream) parseFunctionArgs(funcExpr string, data map[string]any) ([]any,
 			} else {
 				args[i] = arg
 			}
+		} else if isBareColumnReference(arg) {
+			// A column that is absent from this row is NULL. Passing the
+			// identifier text on instead made e.g. lag(v) / latest(v) report
+			// the string "v" for rows that lack the column.
+			args[i] = nil
 		} else {
 			args[i] = arg
 		}
 	}
 
 	return args, nil
+}
+
+// isBareColumnReference reports whether arg looks like a plain (optionally
+// dotted) column identifier rather than a keyword literal such as true/false/null
+// or an unquoted option word consumed by the function itself (e.g. '*').
+func isBareColumnReference(arg string) bool {
+	if arg == "" {
+		return false
+	}
+	switch strings.ToLower(arg) {
+	case "true", "false", "null", "nil":
+		return false
+	}
+	for i, r := range arg {
+		switch {
+		case r == '_' || (r >= 'a' && r <= 'z') || (r >= 'A' && r <= 'Z'):
+		case (r >= '0' && r <= '9') || r == '.':
+			if i == 0 {
+				return false
+			}
+		default:
+			return false
+		}
+	}
+	return true
 }
 
 // containsExpressionOperator reports whether s contains an arithmetic or
